@@ -58,8 +58,27 @@ def _is_util_call(node, fname, nargs):
             and len(node.args) == nargs and not node.keywords)
 
 
-def _idiom_target(ifnode, where):
-    """'self' | 'parent' for a recognised idiom `If`; ExtractError otherwise"""
+def _linked_var(fn, name):
+    """is `name` a local bound exactly once in the function, by `name = self._linked_group()` (the HDF5 group of the
+    data object a DimensionLink points to)"""
+    if fn is None:
+        return False
+    binds = []
+    for n in _walk_local(fn):
+        if isinstance(n, ast.Name) and n.id == name and isinstance(n.ctx, (ast.Store, ast.Del)):
+            binds.append(n)
+    if len(binds) != 1:
+        return False
+    for n in _walk_local(fn):
+        if (isinstance(n, ast.Assign) and len(n.targets) == 1 and n.targets[0] is binds[0]
+                and isinstance(n.value, ast.Call) and not n.value.args and not n.value.keywords
+                and _is_self_attr_chain(n.value.func, ["_linked_group"])):
+            return True
+    return False
+
+
+def _idiom_target(ifnode, where, fn=None):
+    """'self' | 'parent' | 'linked' for a recognised idiom `If`; ExtractError otherwise"""
     if ifnode.orelse:
         raise ExtractError("%s: auto-update test with an else branch" % where)
     body = ifnode.body
@@ -80,11 +99,15 @@ def _idiom_target(ifnode, where):
             var = a.targets[0].id
             c = e.value
             if (isinstance(c, ast.Call) and isinstance(c.func, ast.Attribute) and c.func.attr == "set_attr"
-                    and _is_self_attr_chain(c.func.value, ["_h5group"]) and len(c.args) == 2
+                    and len(c.args) == 2 and not c.keywords
                     and isinstance(c.args[0], ast.Constant) and c.args[0].value == "updated_at"
                     and _is_util_call(c.args[1], "time_to_str", 1)
                     and isinstance(c.args[1].args[0], ast.Name) and c.args[1].args[0].id == var):
-                return "self"
+                if _is_self_attr_chain(c.func.value, ["_h5group"]):
+                    return "self"
+                # DimensionLink: the data object the link points to (`lobj = self._linked_group()`)
+                if isinstance(c.func.value, ast.Name) and _linked_var(fn, c.func.value.id):
+                    return "linked"
     raise ExtractError("%s: auto-update test guards something other than the force_updated_at() idiom" % where)
 
 
@@ -207,6 +230,7 @@ class _Flow:
 
     def __init__(self, cls, fn, lookup):
         self.where = "%s.%s" % (cls, fn.name)
+        self.fn = fn
         self.lookup = lookup
         self.outcomes = set()
         self.idiom_nodes = set()
@@ -260,7 +284,7 @@ class _Flow:
 
     def stmt(self, st, S):
         if isinstance(st, ast.If) and _is_auto_test(st.test):
-            tgt = _idiom_target(st, self.where)
+            tgt = _idiom_target(st, self.where, self.fn)
             self.idiom_nodes.add(id(st))
             return set(self.comb(s, tgt) for s in S)
         if isinstance(st, (ast.FunctionDef, ast.AsyncFunctionDef, ast.ClassDef, ast.Pass, ast.Global, ast.Nonlocal,
@@ -355,7 +379,7 @@ def _analyse_function(cls, fn, lookup):
     for n in _walk_local(fn):
         if isinstance(n, ast.If) and _is_auto_test(n.test) and id(n) not in fl.idiom_nodes:
             raise ExtractError("%s.%s: unreachable auto-update idiom" % (cls, fn.name))
-    order = {"returns": 0, "raises": 1, "none": 0, "self": 1, "parent": 2}
+    order = {"returns": 0, "raises": 1, "none": 0, "self": 1, "parent": 2, "linked": 3}
     return sorted(fl.outcomes, key=lambda o: (order[o[0]], order[o[1]]))
 
 
@@ -459,7 +483,7 @@ def _switch_uses_of_function(cls, fn, decs):
     for n in _walk_fn(fn):
         if isinstance(n, ast.If) and _is_auto_test(n.test) and not n.orelse:
             try:
-                _idiom_target(n, "%s.%s" % (cls, fn.name))
+                _idiom_target(n, "%s.%s" % (cls, fn.name), fn)
             except ExtractError:
                 continue
             uses.append(("idiomTest", ast.unparse(n.test)))
@@ -886,8 +910,9 @@ def extract(repo):
     L.append("")
     L.append("inductive MKind where | setter | method | forceCreated | forceUpdated")
     L.append("  deriving DecidableEq, Repr")
-    L.append("/-- object on which the `if self.file.auto_update_timestamps: X.force_updated_at()` idiom acts -/")
-    L.append("inductive Touch where | none | self | parent")
+    L.append("/-- object on which the `if self.file.auto_update_timestamps: X.force_updated_at()` idiom acts (`linked`: the")
+    L.append("data object a `DimensionLink` points to, whose `label` / `unit` the link's setters write) -/")
+    L.append("inductive Touch where | none | self | parent | linked")
     L.append("  deriving DecidableEq, Repr")
     L.append("")
     L.append("/-- how a path through a method ends: `return` / falling off the end, or an exception (an explicit")
